@@ -353,8 +353,11 @@ def main(prop, tier="quick", seed=0, replay=None):
     ev = {"property_id": prop, "tier": tier, "seed": int(seed), "level": level, "coverage": cov,
           "assumptions": list(getattr(mod, "ASSUMPTIONS", [])), "wall_s": round(wall, 2), "violations": len(new_violations) + (1 if (broke and not new_violations) else 0)}
     if not replay:
-        os.makedirs(os.path.join(VERIF, "evidence"), exist_ok=True)
-        with open(os.path.join(VERIF, "evidence", "%s.json" % prop), "w") as f:
+        # evidence/ only ever describes runs against /repo itself; a run pointed at a scratch tree (mutation
+        # self-tests, seeded changes) leaves it alone and writes next to the caches instead
+        evdir = os.path.join(VERIF, "evidence") if os.path.realpath(bootstrap.REPO) == "/repo" else os.path.join(VERIF, ".cache", "evidence_scratch")
+        os.makedirs(evdir, exist_ok=True)
+        with open(os.path.join(evdir, "%s.json" % prop), "w") as f:
             json.dump(ev, f, indent=1, default=str)
     for l in lines:
         print(l)
